@@ -273,9 +273,10 @@ func genTests(r *Rng, c *GenCfg, n *Node) {
 		}
 		if t.T == "custom" && (n.Kind == "string") && r.P(0.3) {
 			t.Reusable = true
+			t.Edited = r.P(0.4)
 		}
 		if t.T == "custom" && (n.Kind == "string" || n.Kind == "int") && t.Msg == "" && !t.MsgFn && len(t.Params) == 0 && r.P(0.25) {
-			t.TFunc, t.Reusable = true, false
+			t.TFunc, t.Reusable, t.Edited = true, false, false
 		}
 		n.Tests = append(n.Tests, t)
 	}
@@ -644,7 +645,10 @@ func isBlank(s string) bool {
 
 func genBad(r *Rng, kind string) Val {
 	switch kind {
-	case "int", "float":
+	case "int":
+		// Go literal syntax is not a decimal number
+		return Pick(r, []Val{VS("abc"), VL(VS("x"), VS("y")), VS("12x"), VS("0x1f"), VS("1_000"), VS("0b11"), VS("0o17")})
+	case "float":
 		return Pick(r, []Val{VS("abc"), VL(VS("x"), VS("y")), VS("12x")})
 	case "bool":
 		return Pick(r, []Val{VS("maybe"), VI(2), VL(VB(true), VB(false))})
@@ -683,6 +687,9 @@ func representation(r *Rng, kind string, tv Val) Val {
 	case "int":
 		switch r.Intn(4) {
 		case 0:
+			if tv.I >= 0 && r.P(0.2) {
+				return VS(Pick(r, []string{"0", "00"}) + strconv.FormatInt(tv.I, 10)) // zero-padded decimal
+			}
 			return VS(strconv.FormatInt(tv.I, 10))
 		case 1:
 			return VF(float64(tv.I))
